@@ -10,7 +10,7 @@ for sid in ids:
     try:
         if subprocess.run(["git", "-C", "/repo", "apply", os.path.join(d, "patch.diff")]).returncode != 0:
             out[sid] = {"error": "patch does not apply"}; continue
-        r = subprocess.run([os.path.join(ROOT, "check"), prop], cwd=ROOT, capture_output=True, text=True, env=dict(os.environ, VERIF_SEED="1"))
+        r = subprocess.run([os.path.join(ROOT, "check"), prop], cwd=ROOT, capture_output=True, text=True, env=dict(os.environ, VERIF_SEED="1", VERIF_EVIDENCE_DIR=os.path.join(ROOT, "build", "evidence_scratch")))
         txt = r.stdout + r.stderr
         v = re.search(r"VIOLATION property=(\S+) replay=(\S+)( no-failing-input-found)?", txt)
         det = {"check": "./check %s (quick, seed 1)" % prop, "exit": r.returncode, "reported": bool(v), "with_failing_input": bool(v and not v.group(3))}
